@@ -24,8 +24,10 @@ def items(a, thorough):
                         loop_limit=70))
         out.append(dict(name='reset_then_read/g=%d-%d' % (lo, hi), entry='c13_reset_then_read', args=[lo, hi, 0, 0],
                         timeout=to, loop_limit=70, budget_s=120))
-    k = 4 if thorough else 3
-    out.append(dict(name='bmc/k=%d/gap<2500' % k, entry='c13_bmc', args=[2500, k, 0, 0], timeout=to, loop_limit=70, budget_s=1500 if thorough else 120))
+    if thorough:
+        out.append(dict(name='bmc/k=4/gap<1200', entry='c13_bmc', args=[1200, 4, 0, 0], timeout=to, loop_limit=70, budget_s=900))
+        out.append(dict(name='bmc/k=3/gap<4000', entry='c13_bmc', args=[4000, 3, 0, 0], timeout=to, loop_limit=70, budget_s=900))
+    out.append(dict(name='bmc/k=3/gap<2500', entry='c13_bmc', args=[2500, 3, 0, 0], timeout=to, loop_limit=70, budget_s=300))
     out.append(dict(name='bmc/k=2/gap<9000', entry='c13_bmc', args=[9000, 2, 0, 0], timeout=to, loop_limit=70, budget_s=120))
     return out
 
@@ -33,7 +35,7 @@ def items(a, thorough):
 def bounds(a, thorough):
     return {'T': 'all int32 except the sentinel (and leaving head-room for +70 s)', 'counter': 'all 64-bit values '
             '(so 2^16 and 2^32 wrap-around are ordinary values)', 'phase': 'all 16-bit mPrevMillis',
-            'gap': '0..64536 ms for the single step (9 chunks), <2500 ms x k polls and <9000 ms x 2 polls for the BMC',
+            'gap': '0..64536 ms for the single step (9 chunks); BMC: <2500 ms x 3 polls and <9000 ms x 2 polls (thorough adds <1200 ms x 4 and <4000 ms x 3)',
             'loop_unwinding': '70 (catch-up loop needs at most 66)'}
 
 
